@@ -311,7 +311,9 @@ impl Net {
                     st.push((false, 3));
                 }
             }
-            "negStart" => sf = -1 - (salt % 5) as i32,
+            "negStart" => {
+                sf = if salt % 4 == 0 { i32::MIN + (salt % 3) as i32 } else { -1 - (salt % 5) as i32 }
+            }
             "badPayload" => {
                 by = payload.unwrap_or_else(|| vec![0x80 | (salt % 128) as u8]);
             }
